@@ -10,7 +10,7 @@ import os, re, random, shutil, hashlib
 from lib import core, pptok
 
 LEVEL = 'exploration'
-MIN_COUNTS = {'cases_compared': (1200, 45000), 'determinism_runs': (100, 2000), 'memcheck_runs': (2, 30)}
+MIN_COUNTS = {'cases_compared': (1500, 45000), 'determinism_runs': (100, 2000), 'memcheck_runs': (2, 30)}
 
 # the stages run at different instants: __DATE__/__TIME__ are pinned by a preloaded time() so that they cannot differ
 FIXED_CLOCK = {'LD_PRELOAD': os.path.join(core.VERIF, 'build', 'faketime.so'), 'VERIF_TIME_FIXED': '1790000000'}
@@ -153,6 +153,14 @@ def run(ctx):
     for k in range(ctx.scale(300, 12000)):
         p = os.path.join(gen, 'hc%d.c' % k)
         open(p, 'w').write(hostile_consts(rng))
+        corpus.append((p, [], 'gen-hostile-const'))
+    # full grid: every hostile literal converted to every type, and every pair under the operators with undefined corners
+    grid = ['%s hgNN = (%s)(%s);' % (t, t, l) for t in HOSTILE_TYPES for l in HOSTILE_LITS]
+    ints = ['0x7fffffffffffffff', '(-0x7fffffffffffffffL-1)', '-1', '0', '1', '63', '64', '65', '-2', '2147483647', '(-2147483647-1)', '31', '32', '33', '18446744073709551615u']
+    grid += ['long hgNN = (%s) %s (%s);' % (a, op, b) for op in ('/', '%', '<<', '>>', '*', '+', '-') for a in ints for b in ints]
+    for k in range(0, len(grid), 8):
+        p = os.path.join(gen, 'hgrid%d.c' % k)
+        open(p, 'w').write('\n'.join(g.replace('hgNN', 'hg%d' % (k + j)) for j, g in enumerate(grid[k:k + 8])) + '\n')
         corpus.append((p, [], 'gen-hostile-const'))
     nm = ctx.scale(400, 20000)
     tsrc = [(f, open(os.path.join(snap, 'test', f), errors='surrogateescape').read()) for f in tests]
